@@ -1,11 +1,12 @@
 SPECIFICATION Spec
 CONSTANTS
-  DimLists <- NoOnesThorough
+  DimLists <- AllThorough
   Seeds <- Seeds2
   Variant = "code"
-  AllowEmptyKeep = FALSE
+  AllowEmptyKeep = TRUE
 INVARIANT PtrExact
 INVARIANT PtrShape
 INVARIANT CompressFaithful
+INVARIANT DescriptionFits
 INVARIANT Terminates
 CHECK_DEADLOCK FALSE
